@@ -30,6 +30,11 @@ var (
 	rsdpLocationHi  uintptr = 0xfffff
 	rsdpAlignment   uintptr = 16
 
+	// The length of the ACPI 2.0+ root pointer, which is what its extended
+	// checksum covers. unsafe.Sizeof(table.ExtRSDPDescriptor{}) cannot be
+	// used for this as Go pads the struct to a multiple of 8 bytes.
+	extRSDPLength uint32 = 36
+
 	rsdpSignature = [8]byte{'R', 'S', 'D', ' ', 'P', 'T', 'R', ' '}
 	fadtSignature = "FACP"
 )
@@ -233,7 +238,7 @@ checkNextBlock:
 		// System uses ACPI revision > 1 and provides an extended RSDP
 		// which can be accessed at the same place.
 		rsdp2 = (*table.ExtRSDPDescriptor)(unsafe.Pointer(curPtr))
-		if !validTable(curPtr, uint32(unsafe.Sizeof(*rsdp2))) {
+		if !validTable(curPtr, extRSDPLength) {
 			continue
 		}
 
